@@ -39,6 +39,23 @@ def build(c: dict[str, Any], dtype, via: str = "jnp"):
             return jnp.sum(t, axis=axes, keepdims=keep)
 
         return fn
+    if c["kind"] == "lpnorm":
+        ax = c["axis"]
+        axn = ax % 2
+
+        def fn(x):
+            kd = c["layout"] == "keepdims"
+            t = jnp.abs(x) if c["p"] == 1 else x * x
+            n = t.sum(axis=ax, keepdims=kd) if via == "method" else jnp.sum(t, axis=ax, keepdims=kd)
+            if c["p"] == 2:
+                n = jnp.sqrt(n)
+            if c["layout"] == "restore":
+                n = jnp.expand_dims(n, axn)
+            elif c["layout"] == "other_side":
+                n = jnp.expand_dims(n, 1 - axn)
+            return x / n
+
+        return fn
     bins = np.array(c["bins"], dtype)
     if c["kind"] == "digitize":
         return lambda x: jnp.digitize(x, jnp.asarray(bins), right=bool(c["right"]))
@@ -59,12 +76,14 @@ def run_cases(cases: list[dict[str, Any]]) -> dict[str, Any]:
     out: dict[str, Any] = {"n": 0, "spec_vs_jax": [], "problems": [], "export_failed": []}
     for rec in cases:
         c = rec["c"]
-        for dtype in ((np.float32,) if c["kind"] == "reduce" and c["prod"] == "pow" and c["ex"][1] != 1 else (np.float32, np.int32)):
-          for via in (("method", "jnp", "lax") if c["kind"] == "reduce" else ("jnp",)):
+        for dtype in ((np.float32,) if c["kind"] == "lpnorm" or (c["kind"] == "reduce" and c["prod"] == "pow" and c["ex"][1] != 1) else (np.float32, np.int32)):
+          for via in (("method", "jnp", "lax") if c["kind"] == "reduce" else ("method", "jnp") if c["kind"] == "lpnorm" else ("jnp",)):
               x = np.array(rec["x"], dtype)
-              if c["kind"] != "reduce":
+              if c["kind"] not in ("reduce", "lpnorm"):
                   x = x.reshape(-1)
               want = np.array(rec["want"], np.int64)
+              if c["kind"] == "lpnorm":      # exact rationals <<num, den>>
+                  want = want[..., 0].astype(np.float64) / want[..., 1].astype(np.float64)
               fn = build(c, dtype, via)
               out["n"] += 1
               tag = {"case": c, "dtype": np.dtype(dtype).name, "via": via}
